@@ -493,3 +493,96 @@ def _explore_from(m: Machine, start):
             if nx and nx not in seen:
                 seen.add(nx)
                 queue.append((word + (c,), nx))
+
+
+# ------------------------------------------------------------------ ambiguity (catastrophic backtracking)
+def _plain_edges(n: NFA):
+    """Symbol and epsilon edges of an NFA, look-aheads treated as epsilon (an over-approximation of the paths)."""
+    eps = [list(x) for x in n.eps]
+    for q in range(len(n.eps)):
+        for positive, sub, ss, sa, dst in n.asserts[q]:
+            eps[q].append(dst)
+        for dst in n.ends[q]:
+            eps[q].append(dst)
+    return eps, n.sym
+
+
+def exponential_ambiguity(pattern: str, alpha: Optional[Alphabet] = None, limit: int = 400000) -> Optional[tuple[str, str]]:
+    """EDA test (Weber & Seidl): a backtracking matcher can take exponential time on a pattern iff its NFA has a state q and
+    a word v with two *different* paths q -v-> q.  Searched on the product A x A with a flag "the two paths have differed":
+    from (q, q, same) reach (q, q, differed).  Different epsilon routes to the same symbol edge count as different paths.
+    Returns (a state description, a pumping word) or None."""
+    alpha = alpha or Alphabet([pattern])
+    n = build(pattern, alpha)
+    eps, sym = _plain_edges(n)
+    N = len(eps)
+    # number of distinct epsilon paths q ~> q2 (capped at 2; epsilon cycles count as "many")
+    def eps_paths(s):
+        cnt = {s: 1}
+        order = []
+        # DFS with path counting on the epsilon graph; a back edge (cycle) makes every state on it "many"
+        color = {}
+        many = set()
+
+        def dfs(v, stack):
+            color[v] = 1
+            for w in eps[v]:
+                if color.get(w) == 1:
+                    many.update(stack[stack.index(w):] if w in stack else [])
+                    many.add(w)
+                elif w not in color:
+                    dfs(w, stack + [w])
+            color[v] = 2
+            order.append(v)
+
+        dfs(s, [s])
+        cnt = {v: 0 for v in order}
+        cnt[s] = 1
+        for v in reversed(order):
+            for w in eps[v]:
+                if w in cnt and color.get(w) == 2 and w != v:
+                    cnt[w] = min(2, cnt[w] + cnt[v]) if order.index(w) < order.index(v) else cnt[w]
+        for m in many:
+            if m in cnt:
+                cnt[m] = 2
+        return {v: max(1, c) for v, c in cnt.items()}
+
+    K = len(alpha.classes)
+    routes: list[dict[int, list]] = [dict() for _ in range(N)]
+    for q in range(N):
+        ep = eps_paths(q)
+        for q2, mult in ep.items():
+            for ei, (cls, r) in enumerate(sym[q2]):
+                for c in cls:
+                    for m in range(mult):
+                        routes[q].setdefault(c, []).append(((q2, ei, m), r))
+    useful = [q for q in range(N) if routes[q]]
+
+    def succ(node):
+        a, b, d = node
+        for c in range(K):
+            ra, rb = routes[a].get(c, ()), routes[b].get(c, ())
+            if not ra or not rb:
+                continue
+            for ida, x in ra:
+                for idb, y in rb:
+                    d2 = d or x != y or (a == b and ida != idb)
+                    yield c, (x, y, d2)
+
+    for q in useful:
+        start = (q, q, False)
+        seen = {start: ()}
+        queue = [start]
+        i = 0
+        while i < len(queue):
+            nd = queue[i]
+            i += 1
+            for c, nx in succ(nd):
+                if nx == (q, q, True):
+                    return (f"state {q}", alpha.show(seen[nd] + (c,)))
+                if nx not in seen:
+                    seen[nx] = seen[nd] + (c,)
+                    queue.append(nx)
+                    if len(seen) > limit:
+                        raise Unsupported("ambiguity search too large")
+    return None
